@@ -1,5 +1,6 @@
 """C06 - trash-restore never clobbers an existing destination unless --overwrite is given."""
 import itertools
+import os
 
 import engine
 import sandbox
@@ -147,6 +148,51 @@ def same_destination(rng):
     return scns, metas
 
 
+def foreign_paths(rng):
+    """info files written by another tool: a Path that is not in normal form (a symlinked directory followed by '..', doubled or
+    trailing slashes, '.' components).  The destination is what the KERNEL resolves the path to; if something is there the entry
+    must be refused (no --overwrite) - judging a textually tidied-up path instead would look at another place"""
+    scns, metas = [], []
+    home = '/home/u'
+    cases = [('work/link/../report.txt', 'work/archive/report.txt'), ('work//report.txt', 'work/report.txt'), ('work/./report.txt', 'work/report.txt'),
+             ('work/archive/2024/../report.txt', 'work/archive/report.txt')]
+    for (spelled, real), occupied, pk in itertools.product(cases, (True, False), ('f', 'd')):
+        td = home + '/.local/share/Trash'
+        nodes = scen.canary() + [['d', home + '/work/archive/2024', 0o755], ['l', home + '/work/link', 'archive/2024']]
+        nodes += scen.entry(td, 'report.txt', home + '/' + spelled, '2024-01-02T00:00:00', pk)
+        # a decoy at the textually collapsed place, so that a wrong probe has something (or nothing) to see
+        collapsed = os.path.normpath(home + '/' + spelled)
+        dest = home + '/' + real
+        if occupied:
+            nodes.append(['f', dest, 'already here'])
+        elif collapsed != dest:
+            nodes.append(['f', collapsed, 'a file at the tidied-up path, not at the destination'])
+        scn = {'tree': nodes, 'mounts': [], 'cwd': '/', 'uid': 1000, 'env': {'HOME': home, 'TRASH_VOLUMES': '/'},
+               'steps': [{'cmd': 'restore', 'argv': ['/'], 'stdin': '0\n'}]}
+        scns.append(scn)
+        metas.append({'foreign': True, 'ow': False, 'td': td, 'dest': dest, 'spelled': spelled, 'occupied': occupied, 'pk': pk, 'collapsed': collapsed})
+    return scns, metas
+
+
+def judge_foreign(run, scn, meta, res, section='foreign-path'):
+    before, o = res['before'], res['steps'][0]
+    after = o['after']
+    case = {'scenario': scn, 'meta': meta, 'exit': o['exit'], 'stderr': o['stderr'][-400:], 'stdout': o['stdout'][-300:]}
+    run.count(section)
+    eb, ea = engine.entries_of(before, meta['td']), engine.entries_of(after, meta['td'])
+    run.nontriv(('foreign', meta['spelled'], meta['occupied'], meta['pk'], o['exit'] != 0))
+    if meta['occupied']:
+        if sandbox.subtree(after, meta['dest']) != sandbox.subtree(before, meta['dest']) or ea.get('report.txt') != eb.get('report.txt') or o['exit'] == 0:
+            run.fail('oracle', 'the place the recorded Path really designates was occupied, yet the entry was not refused cleanly', case,
+                     key='foreign-path-clobbered', section=section)
+    else:
+        if o['exit'] != 0 or 'report.txt' in ea or engine.strip_mtime(sandbox.subtree(after, meta['dest'])) != engine.strip_mtime(eb['report.txt']['payload']):
+            run.fail('oracle', 'the place the recorded Path designates was free, yet the entry was not restored there', case,
+                     key='foreign-path-not-restored', section=section)
+        if meta['collapsed'] != meta['dest'] and sandbox.subtree(after, meta['collapsed']) != sandbox.subtree(before, meta['collapsed']):
+            run.fail('oracle', 'restoring changed the file at the textually collapsed path', case, key='foreign-path-collapsed-touched', section=section)
+
+
 def order_of(reply):
     out = []
     for part in reply.split(','):
@@ -185,6 +231,11 @@ def judge_same(run, scn, meta, res, section='same-destination'):
 
 
 def run(run, thorough):
+    s3, m3 = foreign_paths(run.rng)
+    out3 = engine.run_all(run, 'restore-foreign', s3)
+    by3 = {id(s): m for s, m in zip(s3, m3)}
+    for scn, res in out3:
+        judge_foreign(run, scn, by3[id(scn)], res)
     s2, m2 = same_destination(run.rng)
     out2 = engine.run_all(run, 'restore-same', s2)
     by2 = {id(s): m for s, m in zip(s2, m2)}
@@ -219,7 +270,9 @@ def replay(run, payload):
     print('trash-restore', scn['steps'][0]['argv'], repr(scn['steps'][0].get('stdin')), 'exit', o['exit'])
     print(' stdout:', esc(o['stdout'][:400]))
     print(' stderr:', esc(o['stderr'][:400]))
-    if meta and meta.get('twice'):
+    if meta and meta.get('foreign'):
+        judge_foreign(run, scn, meta, res)
+    elif meta and meta.get('twice'):
         judge_same(run, scn, meta, res)
     elif meta:
         judge(run, scn, meta, res)
